@@ -740,8 +740,10 @@ def norm_schema(sch, loc, pairs):
 def project_doc(spec, ops):
     """(skeleton, constraints by location) of one emitted document."""
     pairs = {}
-    sk = {"ops": {}, "schemas": {}, "securitySchemes": (spec.get("components") or {}).get("securitySchemes"),
-          "info": spec.get("info"), "servers": spec.get("servers"), "security": spec.get("security")}
+    comps = spec.get("components") or {}
+    sk = {"ops": {}, "schemas": {},
+          "components_other": {k: v for k, v in comps.items() if k != "schemas" and v},
+          "top": {k: v for k, v in spec.items() if k not in ("paths", "components", "openapi") and v}}
     glob_sec = []
     for req in spec.get("security") or []:
         keys = sorted(req.keys())
@@ -760,8 +762,16 @@ def project_doc(spec, ops):
                         "props": {k: norm_schema(v, "%s.form.%s" % (loc, k), pairs) for k, v in b["props"]}}
             else:
                 body = b
+        raw = ((spec.get("paths") or {}).get(o["path"]) or {}).get(o["verb"].lower()) or {}
         sk["ops"][key] = {
             "id": o["id"], "tags": o["tags"], "deprecated": o["deprecated"], "descr": o["descr"],
+            "summary": raw.get("summary") or "",
+            "param_notes": [{"name": q.get("name"), "description": (q.get("description") or "").strip(),
+                             "deprecated": bool(q.get("deprecated", False))} for q in raw.get("parameters") or []],
+            "body_description": ((raw.get("requestBody") or {}).get("description") or "").strip(),
+            "unknown_keys": sorted(k for k in raw if k not in (
+                "summary", "description", "operationId", "tags", "parameters", "requestBody", "responses",
+                "security", "deprecated")),
             # an absent operation-level security inherits the document-level requirement
             "security": o["security"] if o["security_present"] else glob_sec,
             "params": [{"name": q["name"], "in": q["in"], "required": q["required"],
@@ -987,6 +997,18 @@ def tags_layer(res, rng, tier, known, replay_case):
                      "keywords (format, bounds with exclusivity, lengths, items, pattern, uniqueness, enum set), "
                      "and neither converter crashes",
             "cases_in_this_class_this_run": len(idxs)})
+    if corr and not res.violations and replay_case is None:
+        # the model no longer describes the code: widen the search for an input that fails the oracle
+        extra = gen_tag_cases(rng, 3000)
+        er = run_tags(extra, "widen")
+        bad = [i for i, r in enumerate(er) if not r["holds"] and not (r["classes"] and all(cl in known for cl in r["classes"]))]
+        if bad:
+            i = min(bad, key=lambda i: len(extra[i]["validator"]))
+            small = shrink_tag_case(extra[i], still_fails)
+            sr = run_tags([small], "shrink")[0]
+            res.violation({"kind": "property-fails-on-implementation", "layer": "validation converters (implrun tags)",
+                           "input": case_public(small), "implementation": impl_summary(sr["impl"]),
+                           "classes": sr["classes"], "found_by": "widened search after a model/implementation disagreement"})
     if corr and not res.violations:
         i = corr[0]
         r = results[i]
